@@ -27,6 +27,7 @@ import PyAbel.Model.Daun3
 import PyAbel.Model.Basex
 import PyAbel.Model.DaunCache
 import PyAbel.Gen.Tables
+import PyAbel.Model.Window
 open PyAbel PyAbel.Proto
 
 def axOfNat : Nat → Option SymAxis
@@ -404,6 +405,15 @@ def handle (toks : List String) : String :=
         (if vf then some v else none) z (if pf then some hv else none) per k
       s!"ok 2 {n} " ++ showFloats (out.map (·.1) ++ out.map (·.2))
     | _, _, _, _, _, _, _, _, _ => "bad-op"
+  -- ibeta w n terms <harmonics: terms rows of n values>  →  the (terms−1)×n windowed anisotropies of Results.Ibeta(w)
+  | "ibeta" :: w :: n :: t :: rest =>
+    match w.toNat?, n.toNat?, t.toNat?, parseFloats rest with
+    | some w, some n, some t, some xs =>
+      if xs.size ≠ t * n || t = 0 || n = 0 then "bad-op" else
+      let row := fun (m : Nat) (j : Nat) => xs.getD (m * n + j) 0.0
+      let out := (List.range (t - 1)).flatMap fun m => (List.range n).map fun i => Window.beta w n (row (m + 1)) (row 0) i
+      s!"ok {t - 1} {n} " ++ showFloats out
+    | _, _, _, _ => "bad-op"
   -- com rows cols <pixels…>  →  centre of mass (row, col) of the image, via the two projections
   | "com" :: r :: c :: rest =>
     match r.toNat?, c.toNat?, parseFloats rest with
